@@ -119,4 +119,677 @@ theorem hull_cov (ov : List Blk) (b : Blk) (s0 e0 : Nat) (h0 : s0 ≤ b.1) (h1 :
       · left; omega
       · exact Or.inr h
 
+/-! ### what `X.union(other: SingleInterval)` returns (parents aside) -/
+
+/-- a location that cannot be optimised away: a SingleInterval, or a CompoundInterval with a position -/
+def Good : Location → Prop
+  | .single _ _ => True
+  | .compound l => ∃ q, covers l q = true
+  | .empty => False
+
+theorem good_of_covers (r : Location) (q : Nat) (h : locationCovers r q = true) : Good r := by
+  cases r with
+  | single _ _ => trivial
+  | compound l => exact ⟨q, h⟩
+  | empty => simp [locationCovers] at h
+
+theorem good_ne_empty (r : Location) (h : Good r) : r ≠ .empty := by
+  intro he; subst he; exact h
+
+/-- the result `r` of `L.union(SingleInterval b)` on strand `st` -/
+structure USpec (L : Location) (b : Blk) (st : Strand) (r : Location) : Prop where
+  wf : wfLocation r = true
+  strand : r = .empty ∨ locationStrand? r = some st
+  cov : ∀ q, locationCovers r q = (locationCovers L q || coversBlocks [b] q)
+  ends : ∀ x ∈ locationBlocks r, x.2 ≤ max (maxEndOf (locationBlocks L)) b.2
+  disj : nonOverlap (locationBlocks L) = true → nonOverlap (locationBlocks r) = true
+  good : Good L → Good r
+
+theorem sortBlocks_pair (s : Strand) (a b : Blk) :
+    sortBlocks s [a, b] = if blkLe s a b then [a, b] else [b, a] := by
+  split
+  · rename_i h
+    exact sortBlocks_eq_of_perm_sorted s (List.Perm.refl _) (by simp [h])
+  · rename_i h
+    have ht := blkLe_total s a b
+    have : blkLe s b a = true := by
+      cases hh : blkLe s a b
+      · simpa [hh] using ht
+      · exact absurd hh h
+    exact sortBlocks_eq_of_perm_sorted s (List.Perm.swap a b []) (by simp [this])
+
+theorem blkLe_fst (s : Strand) (a b : Blk) (h : blkLe s a b = true) : a.1 ≤ b.1 := by
+  cases s <;> simp [blkLe, blkLePlus, blkLeOther] at h <;> omega
+
+theorem unionSS_spec (a b : Blk) (st : Strand) (ha : a.1 ≤ a.2) (hb : b.1 ≤ b.2) :
+    ∃ r, unionSS a b st true = .ok r ∧ USpec (.single a st) b st r := by
+  unfold unionSS
+  by_cases h1 : a.len = 0
+  · have ha0 : a.2 - a.1 = 0 := h1
+    refine ⟨.single b st, by simp [h1, mkSingleN, hb]; rfl, ?_⟩
+    refine ⟨by simpa [wfLocation] using hb, Or.inr rfl, ?_, ?_, fun _ => rfl, fun _ => trivial⟩
+    · intro q
+      simp only [locationCovers, coversBlocks, List.any_cons, List.any_nil, Bool.or_false]
+      rw [Bool.eq_iff_iff]
+      simp only [Bool.or_eq_true, Bool.and_eq_true, decide_eq_true_eq]
+      omega
+    · intro x hx
+      simp only [locationBlocks, List.mem_singleton] at hx
+      subst hx; omega
+  · by_cases h2 : b.len = 0
+    · have hb0 : b.2 - b.1 = 0 := h2
+      refine ⟨.single a st, by simp [h1, h2, mkSingleN, ha]; rfl, ?_⟩
+      refine ⟨by simpa [wfLocation] using ha, Or.inr rfl, ?_, ?_, fun _ => rfl, fun _ => trivial⟩
+      · intro q
+        simp only [locationCovers, coversBlocks, List.any_cons, List.any_nil, Bool.or_false]
+        rw [Bool.eq_iff_iff]
+        simp only [Bool.or_eq_true, Bool.and_eq_true, decide_eq_true_eq]
+        omega
+      · intro x hx
+        simp only [locationBlocks, List.mem_singleton] at hx
+        subst hx
+        simp only [locationBlocks, maxEndOf]; omega
+    · have ha0 : ¬ (a.2 - a.1 = 0) := h1
+      have hb0 : ¬ (b.2 - b.1 = 0) := h2
+      by_cases h3 : overlapKernel a b = true
+      · have hk := (overlapKernel_iff a b).mp h3
+        have hv : min a.1 b.1 ≤ max a.2 b.2 := by omega
+        refine ⟨.single (min a.1 b.1, max a.2 b.2) st, by simp [h1, h2, h3, mkSingleN, hv]; rfl, ?_⟩
+        refine ⟨by simpa [wfLocation] using hv, Or.inr rfl, ?_, ?_, fun _ => rfl, fun _ => trivial⟩
+        · intro q
+          simp only [locationCovers, coversBlocks, List.any_cons, List.any_nil, Bool.or_false]
+          rw [Bool.eq_iff_iff]
+          simp only [Bool.or_eq_true, Bool.and_eq_true, decide_eq_true_eq]
+          omega
+        · intro x hx
+          simp only [locationBlocks, List.mem_singleton] at hx
+          subst hx
+          simp only [locationBlocks, maxEndOf]; omega
+      · have hk : ¬ (max a.1 b.1 < min a.2 b.2) := fun h => h3 ((overlapKernel_iff a b).mpr h)
+        have hvv : ∀ x ∈ [a, b], x.1 ≤ x.2 := by
+          intro x hx
+          simp only [List.mem_cons, List.not_mem_nil, or_false] at hx
+          rcases hx with rfl | rfl <;> assumption
+        have hc := canon_sortBlocks st (bs := [a, b]) (by simp) hvv
+        refine ⟨.compound ⟨sortBlocks st [a, b], st⟩, ?_, ?_⟩
+        · simp only [h1, h2, h3, if_false, Bool.true_and, mkCompound, mkCompoundLoc_ok st (bs := [a, b]) (by simp) hvv]
+          rfl
+        · refine ⟨by simpa [wfLocation] using hc, Or.inr rfl, ?_, ?_, ?_, ?_⟩
+          · intro q
+            simp only [locationCovers, covers, coversBlocks_sort]
+            simp [coversBlocks]
+          · intro x hx
+            simp only [locationBlocks] at hx
+            have hx' := (sortBlocks_perm st [a, b]).mem_iff.mp hx
+            simp only [List.mem_cons, List.not_mem_nil, or_false] at hx'
+            simp only [locationBlocks, maxEndOf]
+            rcases hx' with rfl | rfl <;> omega
+          · intro _
+            simp only [locationBlocks]
+            rw [sortBlocks_pair]
+            split
+            · rename_i hle
+              have := blkLe_fst st a b hle
+              simp only [nonOverlap, Bool.and_true, decide_eq_true_eq]; omega
+            · rename_i hle
+              have ht := blkLe_total st a b
+              have hba : blkLe st b a = true := by
+                cases hh : blkLe st a b
+                · simpa [hh] using ht
+                · exact absurd hh hle
+              have := blkLe_fst st b a hba
+              simp only [nonOverlap, Bool.and_true, decide_eq_true_eq]; omega
+          · intro _
+            apply good_of_covers _ a.1
+            simp only [locationCovers, covers, coversBlocks_sort]
+            simp [coversBlocks]; omega
+
+/-- the common tail of `CompoundInterval._union_single_interval`: blocks `non` that do not overlap `b`, plus one
+    block `h` covering `b` and the overlapping blocks `ov` -/
+theorem cs_finish (la : Loc) (hc : la.Canon) (b : Blk) (ov non : List Blk)
+    (hperm : (ov ++ non).Perm la.blocks) (hk : ∀ x ∈ non, overlapKernel x b = false)
+    (h : Blk) (hv : h.1 ≤ h.2)
+    (hcov : ∀ q, coversBlocks [h] q = (coversBlocks [b] q || coversBlocks ov q))
+    (hend : h.2 ≤ max b.2 (maxEndOf ov)) :
+    ∃ r, (mkCompoundLoc (non ++ [h]) la.strand >>= optimizeLoc true) = .ok r ∧
+      USpec (.compound la) b la.strand r := by
+  have hvalid : ∀ x ∈ la.blocks, x.1 ≤ x.2 := (blocksValid_iff _).mp hc.2.1
+  have hnonmem : ∀ x ∈ non, x ∈ la.blocks := fun x hx => hperm.mem_iff.mp (List.mem_append_right _ hx)
+  have hvv : ∀ x ∈ non ++ [h], x.1 ≤ x.2 := by
+    intro x hx
+    rcases List.mem_append.mp hx with hx | hx
+    · exact hvalid x (hnonmem x hx)
+    · simp only [List.mem_singleton] at hx; subst hx; exact hv
+  have hne : non ++ [h] ≠ [] := by simp
+  have hcan := canon_sortBlocks la.strand hne hvv
+  obtain ⟨r, hr, hs⟩ := optimizeLoc_spec true (sortBlocks la.strand (non ++ [h])) la.strand hcan
+  refine ⟨r, ?_, ?_⟩
+  · rw [mkCompoundLoc_ok la.strand hne hvv, ok_bind, hr]
+  · have hcovS : ∀ q, coversBlocks (sortBlocks la.strand (non ++ [h])) q =
+        (coversBlocks la.blocks q || coversBlocks [b] q) := by
+      intro q
+      rw [coversBlocks_sort, coversBlocks_append, hcov, ← coversBlocks_perm hperm, coversBlocks_append]
+      cases coversBlocks non q <;> cases coversBlocks [b] q <;> cases coversBlocks ov q <;> rfl
+    refine ⟨hs.wf, hs.strand, ?_, ?_, ?_, ?_⟩
+    · intro q
+      rw [hs.locationCovers, hcovS]
+      rfl
+    · intro x hx
+      have h1 := hs.ends_le x hx
+      rw [maxEndOf_perm (sortBlocks_perm la.strand (non ++ [h])), maxEndOf_append] at h1
+      have h2 : maxEndOf la.blocks = max (maxEndOf ov) (maxEndOf non) := by
+        rw [← maxEndOf_perm hperm, maxEndOf_append]
+      simp only [maxEndOf] at h1
+      simp only [locationBlocks]
+      omega
+    · intro hno
+      simp only [locationBlocks] at hno
+      have hnd := nodup_of_nonOverlap la.blocks hvalid hno
+      rw [← (basesPlus_perm hperm).nodup_iff, basesPlus_append, List.nodup_append] at hnd
+      obtain ⟨_, hndnon, hdis⟩ := hnd
+      have hndS : (basesPlus (sortBlocks la.strand (non ++ [h]))).Nodup := by
+        rw [(basesPlus_perm (sortBlocks_perm la.strand (non ++ [h]))).nodup_iff, basesPlus_append,
+          List.nodup_append]
+        refine ⟨hndnon, by simpa [basesPlus] using nodup_blkAsc h, ?_⟩
+        intro x hx y hy hxy
+        subst hxy
+        have hy' : coversBlocks [h] x = true := by
+          rw [coversBlocks_iff_mem_basesPlus]; exact hy
+        rw [hcov] at hy'
+        simp only [Bool.or_eq_true] at hy'
+        rcases hy' with hy' | hy'
+        · rw [mem_basesPlus] at hx
+          obtain ⟨z, hz, hz1⟩ := hx
+          have : overlapKernel z b = true := by
+            rw [overlapKernel_iff_exists]
+            rw [coversBlocks_iff] at hy'
+            obtain ⟨w, hw, hw1⟩ := hy'
+            simp only [List.mem_singleton] at hw
+            subst hw
+            exact ⟨x, hz1, hw1⟩
+          rw [hk z hz] at this
+          cases this
+        · rw [coversBlocks_iff_mem_basesPlus] at hy'
+          exact hdis x hy' x hx rfl
+      have hndr : (basesPlus (locationBlocks r)).Nodup := by
+        rw [(hs.bases rfl).nodup_iff]; exact hndS
+      cases r with
+      | single _ _ => rfl
+      | empty => rfl
+      | compound l =>
+        have hcl : l.Canon := by simpa [wfLocation] using hs.wf
+        exact nonOverlap_of_nodup l.strand l.blocks hcl.2.2 hs.pos hndr
+    · rintro ⟨q, hq⟩
+      apply good_of_covers r q
+      rw [hs.locationCovers, hcovS]
+      simp only [covers] at hq
+      simp [hq]
+
+theorem unionCS_spec (la : Loc) (hc : la.Canon) (b : Blk) (hb : b.1 ≤ b.2) :
+    ∃ r, unionCS la b true = .ok r ∧ USpec (.compound la) b la.strand r := by
+  have hperm : (la.blocks.filter (fun x => overlapKernel x b) ++
+      la.blocks.filter (fun x => !overlapKernel x b)).Perm la.blocks :=
+    List.filter_append_perm _ _
+  have hk : ∀ x ∈ la.blocks.filter (fun x => !overlapKernel x b), overlapKernel x b = false := by
+    intro x hx
+    have := (List.mem_filter.mp hx).2
+    simpa using this
+  unfold unionCS
+  simp only [Bool.true_and]
+  by_cases he : (la.blocks.filter (fun x => overlapKernel x b)).isEmpty = true
+  · have he' : la.blocks.filter (fun x => overlapKernel x b) = [] := by simpa using he
+    simp only [he, Bool.not_true, Bool.false_eq_true, if_false]
+    rw [he'] at hperm
+    exact cs_finish la hc b [] _ hperm hk b hb (by intro q; simp [coversBlocks]) (by omega)
+  · simp only [he, Bool.not_false, if_true]
+    generalize hov : la.blocks.filter (fun x => overlapKernel x b) = ov at hperm he
+    have hovk : ∀ y ∈ ov, max y.1 b.1 < min y.2 b.2 := by
+      intro y hy
+      rw [← hov] at hy
+      exact (overlapKernel_iff y b).mp (List.mem_filter.mp hy).2
+    have hs1 := foldl_min_le ov b.1
+    have hs2 := le_foldl_max ov b.2
+    have hs3 := foldl_max_le ov b.2
+    have hse : ov.foldl (fun m x => min m x.1) b.1 ≤ ov.foldl (fun m x => max m x.2) b.2 := by omega
+    simp only [hse, if_true]
+    apply cs_finish la hc b ov _ hperm hk _ hse
+    · intro q
+      rw [Bool.eq_iff_iff]
+      have := hull_cov ov b b.1 b.2 (Nat.le_refl _) (Nat.le_refl _) hovk q
+      simp only [Bool.or_eq_true, coversBlocks_iff, List.mem_singleton, exists_eq_left]
+      exact this
+    · exact hs3
+
+/-! ### with parents -/
+
+theorem uws_spec (L : Location) (pl : PKey) (b : Blk) (st : Strand) (pb : PKey) (hwf : WF L)
+    (hst : locationStrand? L = some st) (hb : b.1 ≤ b.2) (hp : sameParent pl pb = true) :
+    ∃ r, unionWithSingle (L, pl) b st pb = .ok (withPar r pl) ∧ USpec L b st r := by
+  have hgate : parentGate pl pb = true := by rw [parentGate_eq]; exact hp
+  have hreq : requireParentsEq pl pb = .ok () := by rw [requireParentsEq_eq, hp]; rfl
+  cases L with
+  | empty => simp [locationStrand?] at hst
+  | single a sa =>
+    simp only [locationStrand?, Option.some.injEq] at hst
+    subst hst
+    obtain ⟨r, hr, hs⟩ := unionSS_spec a b sa hwf hb
+    refine ⟨r, ?_, hs⟩
+    unfold unionWithSingle
+    simp only [locStrand, hgate, hreq]
+    cases pl <;> simp [hr] <;> rfl
+  | compound la =>
+    simp only [locationStrand?, Option.some.injEq] at hst
+    subst hst
+    obtain ⟨r, hr, hs⟩ := unionCS_spec la hwf b hb
+    refine ⟨r, ?_, hs⟩
+    unfold unionWithSingle
+    simp only [locStrand, hgate, hr, hreq]
+    cases pl <;> simp <;> rfl
+
+theorem uws_none (L : Location) (pl : PKey) (b : Blk) (sb : Strand) (pb : PKey)
+    (h : locationStrand? L ≠ some sb ∨ (pl ≠ [] ∧ sameParent pl pb = false)) :
+    ans (unionWithSingle (L, pl) b sb pb) = none := by
+  unfold unionWithSingle
+  cases L with
+  | empty => rfl
+  | single a sa =>
+    by_cases hs : sa = sb
+    · subst hs
+      rcases h with h | ⟨h1, h2⟩
+      · exact absurd rfl h
+      · have he : pl.isEmpty = false := by simpa using h1
+        simp [locStrand, he, requireParentsEq_eq, h2]
+        rfl
+    · simp [locStrand, hs]; rfl
+  | compound la =>
+    by_cases hs : la.strand = sb
+    · subst hs
+      rcases h with h | ⟨h1, h2⟩
+      · exact absurd rfl h
+      · have he : pl.isEmpty = false := by simpa using h1
+        simp [locStrand, he, requireParentsEq_eq, h2]
+        rfl
+    · simp [locStrand, hs]; rfl
+
+theorem wf_of_wfLocation (r : Location) (h : wfLocation r = true) : WF r := by
+  cases r <;> simpa [wfLocation, WF] using h
+
+theorem withPar_of_ne (r : Location) (p : PKey) (h : r ≠ .empty) : withPar r p = (r, p) := by
+  cases r <;> first | rfl | exact absurd rfl h
+
+/-- `reduce(lambda left, right: left.union(right), blocks)` from a receiver that cannot vanish -/
+theorem fold_spec (st : Strand) (pl : PKey) (rest : List (Blk × PKey))
+    (hrest : ∀ x ∈ rest, x.1.1 ≤ x.1.2 ∧ sameParent pl x.2 = true)
+    (L : Location) (hwf : WF L) (hst : locationStrand? L = some st) (hg : Good L)
+    (hno : nonOverlap (locationBlocks L) = true) :
+    ∃ r, rest.foldlM (fun (l : PLoc) x => unionWithSingle l x.1 st x.2) ((L, pl) : PLoc) = .ok (r, pl) ∧
+      wfLocation r = true ∧ locationStrand? r = some st ∧ Good r ∧ nonOverlap (locationBlocks r) = true ∧
+      (∀ q, locationCovers r q = (locationCovers L q || coversBlocks (rest.map (·.1)) q)) ∧
+      (∀ x ∈ locationBlocks r, x.2 ≤ max (maxEndOf (locationBlocks L)) (maxEndOf (rest.map (·.1)))) := by
+  induction rest generalizing L with
+  | nil =>
+    refine ⟨L, rfl, ?_, hst, hg, hno, by intro q; simp [coversBlocks], ?_⟩
+    · cases L <;> simp [wfLocation, WF] at hwf ⊢ <;> exact hwf
+    · intro x hx
+      have := le_maxEndOf_of_mem _ x hx
+      omega
+  | cons y ys ih =>
+    obtain ⟨hy1, hy2⟩ := hrest y (by simp)
+    obtain ⟨r1, hr1, hs1⟩ := uws_spec L pl y.1 st y.2 hwf hst hy1 hy2
+    have hg1 := hs1.good hg
+    have hne1 := good_ne_empty r1 hg1
+    have hst1 : locationStrand? r1 = some st := by
+      rcases hs1.strand with h | h
+      · exact absurd h hne1
+      · exact h
+    obtain ⟨r, hr, h1, h2, h3, h4, h5, h6⟩ :=
+      ih (fun x hx => hrest x (List.mem_cons_of_mem _ hx)) r1 (wf_of_wfLocation r1 hs1.wf) hst1 hg1 (hs1.disj hno)
+    refine ⟨r, ?_, h1, h2, h3, h4, ?_, ?_⟩
+    · rw [List.foldlM_cons, hr1, withPar_of_ne r1 pl hne1]
+      exact hr
+    · intro q
+      rw [h5, hs1.cov, List.map_cons, coversBlocks_cons]
+      simp only [coversBlocks, List.any_cons, List.any_nil, Bool.or_false, Bool.or_assoc]
+    · intro x hx
+      have h7 := h6 x hx
+      have h8 : maxEndOf (locationBlocks r1) ≤ max (maxEndOf (locationBlocks L)) y.1.2 :=
+        (maxEndOf_le_iff _ _).mpr hs1.ends
+      simp only [List.map_cons, maxEndOf]
+      omega
+
+/-- `_merge_compound_blocks` on valid blocks whose parents are pairwise compatible -/
+theorem mergeBlocks_spec (blocks : List (Blk × PKey)) (st : Strand) (hne : blocks ≠ [])
+    (hv : ∀ x ∈ blocks, x.1.1 ≤ x.1.2)
+    (hp : ∀ x ∈ blocks, ∀ y ∈ blocks, sameParent x.2 y.2 = true) :
+    ∃ r p0, mergeBlocks blocks st = .ok (r, p0) ∧ (∃ x ∈ blocks, x.2 = p0) ∧
+      wfLocation r = true ∧ locationStrand? r = some st ∧ Good r ∧ nonOverlap (locationBlocks r) = true ∧
+      (∀ q, locationCovers r q = coversBlocks (blocks.map (·.1)) q) ∧
+      (∀ x ∈ locationBlocks r, x.2 ≤ maxEndOf (blocks.map (·.1))) := by
+  match blocks, hne with
+  | (b0, p0) :: rest, _ =>
+    obtain ⟨r, hr, h1, h2, h3, h4, h5, h6⟩ := fold_spec st p0 rest
+      (fun x hx => ⟨hv x (List.mem_cons_of_mem _ hx), hp (b0, p0) (by simp) x (List.mem_cons_of_mem _ hx)⟩)
+      (.single b0 st) (hv (b0, p0) (by simp)) rfl trivial rfl
+    refine ⟨r, p0, hr, ⟨(b0, p0), by simp, rfl⟩, h1, h2, h3, h4, ?_, ?_⟩
+    · intro q
+      rw [h5, List.map_cons, coversBlocks_cons]
+      simp [locationCovers, coversBlocks]
+    · intro x hx
+      have := h6 x hx
+      simp only [locationBlocks, maxEndOf, List.map_cons] at this ⊢
+      omega
+
+theorem okUnion_of (a b : PLoc) (ha : WFP a) (hb : WFP b) (hsp : sameParent a.2 b.2 = true) (st : Strand)
+    (hsa : locationStrand? a.1 = some st) (hsb : locationStrand? b.1 = some st)
+    (r : Location) (pr : PKey) (hpr : pr = a.2 ∨ pr = b.2) (hwf : wfLocation r = true)
+    (hstr : r = .empty ∨ locationStrand? r = some st)
+    (hcov : ∀ q, locationCovers r q = (locationCovers a.1 q || locationCovers b.1 q))
+    (hends : ∀ x ∈ locationBlocks r,
+      x.2 ≤ max (maxEndOf (locationBlocks a.1)) (maxEndOf (locationBlocks b.1))) :
+    okUnion a b (some (withPar r pr)) = true := by
+  have hae : a.1 ≠ .empty := by intro h; rw [h] at hsa; simp [locationStrand?] at hsa
+  have hbe : b.1 ≠ .empty := by intro h; rw [h] at hsb; simp [locationStrand?] at hsb
+  have hnr : unionRefused a b = false := by
+    simp [unionRefused, strandEq, hsa, hsb, hsp, hae, hbe]
+  unfold okUnion
+  simp only [hnr, Bool.false_eq_true, if_false, withPar_fst, Bool.and_eq_true]
+  refine ⟨⟨⟨?_, ?_⟩, ?_⟩, ?_⟩
+  · apply resultOk_withPar r pr a.2 hwf
+    · intro n hn x hx
+      have h0 := hends x hx
+      have hla : parentSeqLen a.2 = some n := by
+        rcases hpr with rfl | rfl
+        · exact hn
+        · rw [sameParent_seqLen _ _ hsp]; exact hn
+      have hlb : parentSeqLen b.2 = some n := by rw [← sameParent_seqLen _ _ hsp]; exact hla
+      have h1 := (maxEndOf_le_iff _ n).mpr (ha.2.2 n hla)
+      have h2 := (maxEndOf_le_iff _ n).mpr (hb.2.2 n hlb)
+      omega
+    · rcases hpr with rfl | rfl
+      · exact sameParent_refl _
+      · rw [sameParent_symm]; exact hsp
+  · simp only [endsWithin, List.all_eq_true, decide_eq_true_eq]
+    intro x hx
+    rw [hiOf_pair]
+    exact hends x hx
+  · rw [allUpTo_iff]
+    intro p _
+    simp [hcov]
+  · rw [hsa]
+    rcases hstr with h | h
+    · simp [strandIs, h]
+    · simp [strandIs, h]
+
+theorem parCheck {β : Type} (a2 b2 : PKey) (hj : ¬ (a2 = [] ∧ b2 ≠ [])) (K : R β) :
+    (if (!a2.isEmpty) = true then (requireParentsEq a2 b2 >>= fun _ => K) else K) =
+      if sameParent a2 b2 then K else .error .MismatchedParent := by
+  cases a2 with
+  | nil =>
+    have : b2 = [] := by
+      cases b2 with
+      | nil => rfl
+      | cons y ys => exact absurd ⟨rfl, by simp⟩ hj
+    subst this
+    rfl
+  | cons x xs =>
+    simp only [List.isEmpty_cons, Bool.not_false, if_true]
+    rw [requireParentsEq_eq]
+    split <;> rfl
+
+theorem unionP_single_right (A : Location) (pa : PKey) (y : Blk) (sb : Strand) (pb : PKey) (hA : A ≠ .empty) :
+    unionP (A, pa) (.single y sb, pb) = unionWithSingle (A, pa) y sb pb := by
+  cases A <;> first | rfl | exact absurd rfl hA
+
+theorem sortSingles_perm (M : List (Blk × PKey)) : (sortSingles M).Perm M :=
+  List.mergeSort_perm M _
+
+/-- what `union` returns for operands on one strand with compatible parents -/
+theorem unionP_spec (a b : PLoc) (ha : WF a.1) (hb : WF b.1) (hsp : sameParent a.2 b.2 = true) (st : Strand)
+    (hsa : locationStrand? a.1 = some st) (hsb : locationStrand? b.1 = some st) :
+    ∃ r pr, unionP a b = .ok (withPar r pr) ∧ (pr = a.2 ∨ pr = b.2) ∧ wfLocation r = true ∧
+      (r = .empty ∨ locationStrand? r = some st) ∧
+      (∀ q, locationCovers r q = (locationCovers a.1 q || locationCovers b.1 q)) ∧
+      (∀ x ∈ locationBlocks r, x.2 ≤ max (maxEndOf (locationBlocks a.1)) (maxEndOf (locationBlocks b.1))) ∧
+      (nonOverlap (locationBlocks a.1) = true → nonOverlap (locationBlocks b.1) = true →
+        nonOverlap (locationBlocks r) = true) := by
+  obtain ⟨A, pa⟩ := a
+  obtain ⟨B, pb⟩ := b
+  simp only at ha hb hsp hsa hsb ⊢
+  have hj : ¬ (pa = [] ∧ pb ≠ []) := by
+    rintro ⟨h1, h2⟩
+    subst h1
+    rw [sameParent_nil_left] at hsp
+    exact h2 (by simpa using hsp)
+  have hsp' : sameParent pb pa = true := by rw [sameParent_symm]; exact hsp
+  cases B with
+  | empty => simp [locationStrand?] at hsb
+  | single y sb =>
+    simp only [locationStrand?, Option.some.injEq] at hsb
+    subst hsb
+    have hA : A ≠ .empty := by intro h; rw [h] at hsa; simp [locationStrand?] at hsa
+    obtain ⟨r, hr, hs⟩ := uws_spec A pa y sb pb ha hsa hb hsp
+    refine ⟨r, pa, ?_, Or.inl rfl, hs.wf, hs.strand, ?_, ?_, fun h _ => hs.disj h⟩
+    · rw [unionP_single_right A pa y sb pb hA]; exact hr
+    · intro q; rw [hs.cov]; rfl
+    · intro x hx
+      have := hs.ends x hx
+      simp only [locationBlocks, maxEndOf] at this ⊢
+      omega
+  | compound lb =>
+    simp only [locationStrand?, Option.some.injEq] at hsb
+    cases A with
+    | empty => simp [locationStrand?] at hsa
+    | single x sa =>
+      simp only [locationStrand?, Option.some.injEq] at hsa
+      subst hsa
+      obtain ⟨r, hr, hs⟩ := uws_spec (.compound lb) pb x sa pa hb (by simp [locationStrand?, hsb]) ha hsp'
+      refine ⟨r, pb, ?_, Or.inr rfl, hs.wf, hs.strand, ?_, ?_, fun _ h => hs.disj h⟩
+      · have : unionP (.single x sa, pa) (.compound lb, pb) =
+            (do if sa ≠ lb.strand then throw Err.ValueError
+                if (!pa.isEmpty) = true then requireParentsEq pa pb
+                unionWithSingle (.compound lb, pb) x sa pa) := rfl
+        rw [this]
+        simp only [hsb, ne_eq, not_true_eq_false, if_false]
+        rw [parCheck pa pb hj, hsp]
+        simp only [if_true]
+        exact hr
+      · intro q
+        rw [hs.cov, Bool.or_comm]; rfl
+      · intro y hy
+        have := hs.ends y hy
+        simp only [locationBlocks, maxEndOf] at this ⊢
+        omega
+    | compound la =>
+      simp only [locationStrand?, Option.some.injEq] at hsa
+      have hva : ∀ x ∈ la.blocks, x.1 ≤ x.2 := (blocksValid_iff _).mp ha.2.1
+      have hvb : ∀ x ∈ lb.blocks, x.1 ≤ x.2 := (blocksValid_iff _).mp hb.2.1
+      have hmem : ∀ x ∈ sortSingles (la.blocks.map (fun x => (x, pa)) ++ lb.blocks.map (fun x => (x, pb))),
+          (x.1 ∈ la.blocks ∧ x.2 = pa) ∨ (x.1 ∈ lb.blocks ∧ x.2 = pb) := by
+        intro x hx
+        have := (sortSingles_perm _).mem_iff.mp hx
+        simp only [List.mem_append, List.mem_map] at this
+        rcases this with ⟨y, hy, rfl⟩ | ⟨y, hy, rfl⟩
+        · exact Or.inl ⟨hy, rfl⟩
+        · exact Or.inr ⟨hy, rfl⟩
+      have hne : sortSingles (la.blocks.map (fun x => (x, pa)) ++ lb.blocks.map (fun x => (x, pb))) ≠ [] := by
+        intro h
+        have hp := sortSingles_perm (la.blocks.map (fun x => (x, pa)) ++ lb.blocks.map (fun x => (x, pb)))
+        rw [h] at hp
+        have := hp.length_eq
+        simp only [List.length_nil, List.length_append, List.length_map] at this
+        have hla : la.blocks ≠ [] := ha.1
+        cases hl : la.blocks with
+        | nil => exact hla hl
+        | cons _ _ => rw [hl] at this; simp at this; omega
+      obtain ⟨r, p0, hr, ⟨x0, hx0, hp0⟩, h1, h2, h3, h4, h5, h6⟩ := mergeBlocks_spec _ la.strand hne
+        (by
+          intro x hx
+          rcases hmem x hx with ⟨h, _⟩ | ⟨h, _⟩
+          · exact hva _ h
+          · exact hvb _ h)
+        (by
+          intro x hx y hy
+          rcases hmem x hx with ⟨_, h⟩ | ⟨_, h⟩ <;> rcases hmem y hy with ⟨_, h'⟩ | ⟨_, h'⟩ <;> rw [h, h']
+          · exact sameParent_refl _
+          · exact hsp
+          · exact hsp'
+          · exact sameParent_refl _)
+      have hmapfst : ((sortSingles (la.blocks.map (fun x => (x, pa)) ++ lb.blocks.map (fun x => (x, pb)))).map
+          (·.1)).Perm (la.blocks ++ lb.blocks) := by
+        have := (sortSingles_perm (la.blocks.map (fun x => (x, pa)) ++ lb.blocks.map (fun x => (x, pb)))).map (·.1)
+        simpa [List.map_append, List.map_map, Function.comp_def] using this
+      refine ⟨r, p0, ?_, ?_, h1, ?_, ?_, ?_, fun _ _ => h4⟩
+      · have : unionP (.compound la, pa) (.compound lb, pb) =
+            (do if la.strand ≠ lb.strand then throw Err.ValueError
+                if (!pa.isEmpty) = true then requireParentsEq pa pb
+                mergeBlocks (sortSingles (la.blocks.map (fun x => (x, pa)) ++ lb.blocks.map (fun x => (x, pb))))
+                  la.strand) := rfl
+        rw [this]
+        simp only [hsa, hsb, ne_eq, not_true_eq_false, if_false]
+        rw [parCheck pa pb hj, hsp]
+        simp only [if_true]
+        rw [withPar_of_ne r p0 (good_ne_empty r h3), ← hsa]
+        exact hr
+      · rcases hmem x0 hx0 with ⟨_, h⟩ | ⟨_, h⟩
+        · left; rw [← hp0, h]
+        · right; rw [← hp0, h]
+      · right; rw [h2, hsa]
+      · intro q
+        rw [h5, coversBlocks_perm hmapfst, coversBlocks_append]; rfl
+      · intro x hx
+        have := h6 x hx
+        rw [maxEndOf_perm hmapfst, maxEndOf_append] at this
+        exact this
+
+theorem unionP_none (a b : PLoc) (hj : ¬ OneSidedParent a b) (href : unionRefused a b = true) :
+    ans (unionP a b) = none := by
+  obtain ⟨A, pa⟩ := a
+  obtain ⟨B, pb⟩ := b
+  have hj' : ¬ (pa = [] ∧ pb ≠ []) := hj
+  have hpa : sameParent pa pb = false → pa ≠ [] := by
+    intro h hpa
+    subst hpa
+    have : pb = [] := by
+      cases pb with
+      | nil => rfl
+      | cons y ys => exact absurd ⟨rfl, by simp⟩ hj'
+    subst this
+    simp [sameParent] at h
+  cases A with
+  | empty => rfl
+  | single x sa =>
+    cases B with
+    | empty => rfl
+    | single y sb =>
+      rw [unionP_single_right _ _ _ _ _ (by simp)]
+      apply uws_none
+      by_cases hs : sa = sb
+      · subst hs
+        right
+        have : sameParent pa pb = false := by
+          simpa [unionRefused, strandEq, locationStrand?] using href
+        exact ⟨hpa this, this⟩
+      · left; simpa [locationStrand?] using hs
+    | compound lb =>
+      have : unionP (.single x sa, pa) (.compound lb, pb) =
+          (do if sa ≠ lb.strand then throw Err.ValueError
+              if (!pa.isEmpty) = true then requireParentsEq pa pb
+              unionWithSingle (.compound lb, pb) x sa pa) := rfl
+      rw [this]
+      by_cases hs : sa = lb.strand
+      · have hsp : sameParent pa pb = false := by
+          simpa [unionRefused, strandEq, locationStrand?, hs] using href
+        simp only [hs, ne_eq, not_true_eq_false, if_false]
+        rw [parCheck pa pb hj', hsp]
+        rfl
+      · simp only [ne_eq, hs, not_false_eq_true, if_true]
+        rfl
+  | compound la =>
+    cases B with
+    | empty => rfl
+    | single y sb =>
+      rw [unionP_single_right _ _ _ _ _ (by simp)]
+      apply uws_none
+      by_cases hs : la.strand = sb
+      · subst hs
+        right
+        have : sameParent pa pb = false := by
+          simpa [unionRefused, strandEq, locationStrand?] using href
+        exact ⟨hpa this, this⟩
+      · left; simpa [locationStrand?] using hs
+    | compound lb =>
+      have : unionP (.compound la, pa) (.compound lb, pb) =
+          (do if la.strand ≠ lb.strand then throw Err.ValueError
+              if (!pa.isEmpty) = true then requireParentsEq pa pb
+              mergeBlocks (sortSingles (la.blocks.map (fun x => (x, pa)) ++ lb.blocks.map (fun x => (x, pb))))
+                la.strand) := rfl
+      rw [this]
+      by_cases hs : la.strand = lb.strand
+      · have hsp : sameParent pa pb = false := by
+          simpa [unionRefused, strandEq, locationStrand?, hs] using href
+        simp only [hs, ne_eq, not_true_eq_false, if_false]
+        rw [parCheck pa pb hj', hsp]
+        rfl
+      · simp only [ne_eq, hs, not_false_eq_true, if_true]
+        rfl
+
+/-- not refused: both operands have a strand, the same one, and compatible parents -/
+theorem not_refused (a b : PLoc) (h : unionRefused a b = false) :
+    ∃ st, locationStrand? a.1 = some st ∧ locationStrand? b.1 = some st ∧ sameParent a.2 b.2 = true := by
+  simp only [unionRefused, Bool.or_eq_false_iff, Bool.not_eq_false', beq_eq_false_iff_ne] at h
+  obtain ⟨⟨⟨_, _⟩, h3⟩, h4⟩ := h
+  unfold strandEq at h3
+  cases hA : locationStrand? a.1 with
+  | none => simp [hA] at h3
+  | some sa =>
+    cases hB : locationStrand? b.1 with
+    | none => simp [hA, hB] at h3
+    | some sb =>
+      simp only [hA, hB, beq_iff_eq] at h3
+      subst h3
+      exact ⟨sa, rfl, rfl, h4⟩
+
 end BioCantor.Proofs.Union
+
+namespace BioCantor.Proofs
+open BioCantor BioCantor.Spec BioCantor.Model
+
+/-- C02-T3: union covers exactly the positions of either operand, keeps the strand, is well formed and inside the
+    parent; it is refused exactly for EmptyLocation operands, different strands, incompatible parents (outside the
+    one-sided corner F-C19j) -/
+theorem unionP_ok (a b : PLoc) (ha : WFP a) (hb : WFP b) (hj : ¬ OneSidedParent a b) :
+    okUnion a b (ans (unionP a b)) = true := by
+  cases href : unionRefused a b with
+  | true =>
+    rw [Union.unionP_none a b hj href]
+    simp [okUnion, href]
+  | false =>
+    obtain ⟨st, hsa, hsb, hsp⟩ := Union.not_refused a b href
+    obtain ⟨r, pr, hr, hpr, h1, h2, h3, h4, _⟩ := Union.unionP_spec a b ha.1 hb.1 hsp st hsa hsb
+    rw [hr, ans_ok]
+    exact Union.okUnion_of a b ha hb hsp st hsa hsb r pr hpr h1 h2 h3 h4
+
+example : WFP ((.compound ⟨[(0, 2), (2, 2), (3, 5)], .minus⟩), [(some "chrA", none, some ['A','C','G','T','A'])]) ∧
+    WFP ((.compound ⟨[(1, 4), (4, 5)], .minus⟩), [(some "chrA", none, some ['A','C','G','T','A'])]) ∧
+    ¬ OneSidedParent ((.compound ⟨[(0, 2), (2, 2), (3, 5)], .minus⟩), [(some "chrA", none, some ['A','C','G','T','A'])])
+      ((.compound ⟨[(1, 4), (4, 5)], .minus⟩), [(some "chrA", none, some ['A','C','G','T','A'])]) := by decide
+
+/-- operands without self-overlap give a union without overlapping blocks -/
+theorem unionP_disjoint (a b : PLoc) (ha : WFP a) (hb : WFP b) (hj : ¬ OneSidedParent a b) :
+    okUnionDisjoint a b (ans (unionP a b)) = true := by
+  cases href : unionRefused a b with
+  | true =>
+    rw [Union.unionP_none a b hj href]
+    rfl
+  | false =>
+    obtain ⟨st, hsa, hsb, hsp⟩ := Union.not_refused a b href
+    obtain ⟨r, pr, hr, _, _, _, _, _, h5⟩ := Union.unionP_spec a b ha.1 hb.1 hsp st hsa hsb
+    rw [hr, ans_ok]
+    simp only [okUnionDisjoint, withPar_fst, nonOverlapLoc]
+    split
+    · rename_i h
+      simp only [Bool.and_eq_true] at h
+      exact h5 h.1 h.2
+    · rfl
+
+end BioCantor.Proofs
